@@ -1,6 +1,7 @@
 (* C10 -- the exact instance (integer vectors, 3x3 integer matrices): the
-   hypotheses of the general theorems are satisfiable (non-vacuity), and the
-   witnesses of the clauses the FAITHFUL model violates. *)
+   hypotheses of the general theorems are satisfiable (non-vacuity), the former
+   witnesses of the repaired defects as positive examples, and the witness of
+   the clause the FAITHFUL model still violates. *)
 From Coq Require Import ZArith List Bool Arith Lia.
 From Verif Require Import NdIndex C17Unique C17UniqueSpec C10Model C10Orbit C10Sym.
 Import ListNotations.
@@ -141,41 +142,36 @@ Example sym_unique_4 :
      [4; 1; 0; 4], [0; 0; 0; 0; 1; 3; 3; 3; 3]%Z).
 Proof. vm_compute. reflexivity. Qed.
 
-(* ------------------------------------------------------ refuted clauses *)
-(* (1) multiplicity of a 2-d object is not element-wise: m-3m, shape (2,3) *)
+(* the former witnesses of the two repaired defects, now positive examples *)
+(* multiplicity of a 2-d object is element-wise: m-3m, shape (2,3) *)
 Definition w_shape : list nat := [2; 3].
 Definition w_data : list zv3 := [(1, 0, 0); (1, 1, 0); (1, 1, 1); (1, 2, 3); (0, 0, 1); (1, 1, 2)]%Z.
-Lemma multiplicity_nd_witness :
-  zmultiplicity z_m3m w_shape w_data = [6; 48; 12; 6; 8; 24] /\
+Example multiplicity_nd_example :
+  group_action zmmul ztrans zmid zact z_m3m /\ length w_data = size w_shape /\
+  zmultiplicity z_m3m w_shape w_data = [6; 12; 8; 48; 6; 24] /\
   map (fun v => length (zblock z_m3m v)) w_data = [6; 12; 8; 48; 6; 24].
-Proof. vm_compute. auto. Qed.
+Proof. split; [apply z_m3m_group|]. vm_compute. auto. Qed.
 
-Lemma multiplicity_nd_refuted :
-  exists (ops : list zm3) (shape : list nat) (data : list zv3) (k : nat),
-    group_action zmmul ztrans zmid zact ops /\ length data = size shape /\ k < length data /\
-    nth k (zmultiplicity ops shape data) 0 <> length (zblock ops (nth k data z0)).
+(* angle_with(use_symmetry) with two other vectors is element-wise: the second
+   entry is the angle between [110] and the nearest image of [111] (cos^2 =
+   2^2 / (2 * 3)), not of [501]; entries are (u.w', w'.w') for the nearest image w' *)
+Example angle_elementwise_example :
+  zangle_with_sym z_m3m [(1, 0, 0); (1, 1, 0)]%Z [(5, 0, 1); (1, 1, 1)]%Z
+  = Some ([2], [(5, 26); (2, 3)]%Z) /\
+  is_min zang_leb (2, 3)%Z (map (fun g => zang (1, 1, 0)%Z (zact g (1, 1, 1)%Z)) z_m3m) /\
+  ~ is_min zang_leb (6, 26)%Z (map (fun g => zang (1, 1, 0)%Z (zact g (1, 1, 1)%Z)) z_m3m).
 Proof.
-  exists z_m3m, w_shape, w_data, 1. split; [apply z_m3m_group|].
-  vm_compute. repeat split; auto. intros H; discriminate.
+  split; [vm_compute; reflexivity|]. split.
+  - split.
+    + vm_compute. auto 60.
+    + intros x Hx. vm_compute in Hx.
+      repeat (destruct Hx as [<-|Hx]; [vm_compute; reflexivity|]). destruct Hx.
+  - intros [Hin _]. vm_compute in Hin.
+    repeat (destruct Hin as [Hin|Hin]; [discriminate|]). exact Hin.
 Qed.
 
-(* (2) angle_with(use_symmetry) with two other vectors: the second entry is
-   the angle to an image of the FIRST other vector *)
-Lemma angle_elementwise_refuted :
-  exists (ops : list zm3) (self other : list zv3) (res : list (Z * Z)) (i : nat),
-    group_action zmmul ztrans zmid zact ops /\ length self = length other /\ i < length self /\
-    zangle_with_sym ops self other = Some res /\
-    ~ is_min zang_leb (nth i res (0, 0)%Z)
-             (map (fun g => zang (nth i self z0) (zact g (nth i other z0))) ops).
-Proof.
-  exists z_m3m, [(1, 0, 0); (1, 1, 0)]%Z, [(5, 0, 1); (1, 1, 1)]%Z, [(5, 26); (6, 26)]%Z, 1.
-  split; [apply z_m3m_group|]. split; [reflexivity|]. split; [simpl; lia|].
-  split; [vm_compute; reflexivity|].
-  intros [Hin _]. vm_compute in Hin.
-  repeat (destruct Hin as [Hin|Hin]; [discriminate|]). exact Hin.
-Qed.
-
-(* (3) de-duplication by comparing ROUNDED values is not a tolerance relation:
+(* ------------------------------------------------------ refuted clauses *)
+(* de-duplication by comparing ROUNDED values is not a tolerance relation:
    six evaluations of three images (the second evaluation of each within one
    unit of 1e-11 of the first) yield 4 "distinct" vectors -- 4 does not
    divide 6 *)
